@@ -103,6 +103,22 @@ Definition faulty (l : list step) : bool :=
   existsb (fun a => match a with AFailRead | ASetWriteFail _ => true | _ => false end) (acts_of l)
   || existsb (fun st => match st_kind st with KSrvFail => true | _ => false end) l.
 
+(* faults that end the conversation: the client's Read fails, the server's transport fails *)
+Definition hard_faulty (l : list step) : bool :=
+  existsb (fun a => match a with AFailRead => true | _ => false end) (acts_of l)
+  || existsb (fun st => match st_kind st with KSrvFail => true | _ => false end) l.
+
+(* a write fault hits a user operation that writes: a call was started, a message sent or a stream half-closed while
+   the client's Write was failing. (A write fault that covers only a teardown - the reset of a cancelled stream - hits
+   no user operation: the connection stays healthy and every property is judged.) *)
+Fixpoint wfault_hits (on : bool) (l : list act) : bool :=
+  match l with
+  | [] => false
+  | ASetWriteFail b :: t => wfault_hits b t
+  | ANewUnary _ _ :: t | ANewStream _ :: t | ASend _ _ :: t | ACloseSend _ :: t => on || wfault_hits on t
+  | _ :: t => wfault_hits on t
+  end.
+
 (* a terminal envelope (trailer or reset) of the stream was handed to the client's transport *)
 Definition terminal_delivered (i : Z) (l : list step) : bool :=
   existsb (fun a => match a with
@@ -146,7 +162,7 @@ Definition c07_call (c : nat) (steps : list step) (c2s : list penv) (ids : list 
   | None => []
   | Some (before, st, after, dl) =>
       let i := id_of ids (Z.of_nat c) in
-      if negb (opened c (events_of before)) || faulty steps then []
+      if negb (opened c (events_of before)) || hard_faulty steps || wfault_hits false (acts_of steps) then []
       else
         let term := terminal_delivered i before in
         (* the caller had already seen the end of the stream: the call had completed *)
@@ -197,6 +213,10 @@ Definition c07_call (c : nat) (steps : list step) (c2s : list penv) (ids : list 
                            (st :: after) in
         let last := last (st :: after) st in
         let r5b := if so_dc (st_so last) =? so_wc (st_so last) then negb (hctx_live (Z.of_nat c) (st_so last)) else true in
+        (* a write fault (it covers the teardown only, see wfault_hits): the reset may be lost and with it the handler's
+           cancellation; the caller's side is judged *)
+        if faulty steps then (if r2 then [] else [2%nat]) ++ (if r3 then [] else [3%nat])
+        else
         (if r2 then [] else [2%nat]) ++ (if r3 then [] else [3%nat]) ++ (if r4 then [] else [4%nat]) ++
         (if r5a && r5b then [] else [5%nat])
   end.
@@ -323,7 +343,7 @@ Definition spec_c11 (c : cwcase) : list nat :=
       | lst :: _ =>
           let so := st_so lst in
           let drained := match m with ME2E => (so_dc so =? so_wc so) && (so_ds so =? so_ws so) | _ => true end in
-          if faulty steps || negb drained then []
+          if hard_faulty steps || wfault_hits false (acts_of steps) || negb drained then []
           else
             (if (match o_pending (st_co lst) with [] => true | _ => false end)
                 && forallb (unary_ok steps) (unary_payloads steps) then [] else [2%nat]) ++
